@@ -1,36 +1,52 @@
 """C12 — Zernike fit, compose and remove are mutually inverse for any mode set.
 
-Tie: the theorems of Props/C12.lean are about `fit = (BᵀB)⁻¹Bᵀ·opd`, `compose = B·c`, `remove = opd − B·fit` for the basis matrix B
-of the requested modes. The correspondence rebuilds B from the Lean mode model (Model/Zernike.lean `zernAt`, run at Float by the
-C11 driver ops on the very (rho, theta, mask) the implementation used) and checks on every case that (1) zernike_basis equals
-that B, (2) zernike_fit returns the solution of the normal equations BᵀB·c = Bᵀ·opd (the trusted pinv contract, checked
-numerically), (3) zernike_remove returns opd − B·fit. The oracle evaluates the property itself on the real functions."""
+Tie.  Gen/ZernikeCalls.lean (regenerated): the coefficient-position -> Noll-index map of zernike_compose and the structural
+argument bindings of zernike_basis / zernike_fit / zernike_remove (same modes and coordinates for the fit and the subtraction,
+C-order flattening, library-default normalisation).  Model/ZernikeFit.lean (hand, executable, generic in the scalar): basis matrix
+from the C11 mode model, fit by the normal equations (Cramer), compose, remove — run at Float by Driver/Ops/C12.lean and proved in
+Props/C12.lean to be the abstract `zfit/zcompose/zremove` the property theorems speak about.
+
+Cases are call HISTORIES: several compose/fit/remove calls in one process on the same mask with different coordinates,
+normalisations, mode orders and memory layouts (Fortran order, transposed views, strided views, float32, bool/int masks); every call is
+compared with the stateless model answer for that call alone, so hidden state or layout dependence shows up as a disagreement,
+and the property itself (fit∘compose = id, fit∘remove = 0, idempotence, span -> 0, order independence) is evaluated on the results."""
 import math, numpy as np
 from harness.common import *
 import vlib
 
 LEVEL_TEXT = ('Lean 4 theorems (Mathlib matrices), for every basis matrix B with invertible BᵀB, i.e. every mask, mode subset, ordering, '
               'normalisation and caller coordinates on which the modes are linearly independent: fit(compose c) = c; fit(remove opd) = 0; '
-              'remove is idempotent; remove(compose c) = 0; the residual is orthogonal to the removed modes (normal equations) and no other '
-              'coefficient vector leaves a smaller sum of squares (least squares, over any linearly ordered field).')
-LEVEL_NOTE = ('Trusted: Lean kernel and Mathlib; np.linalg.pinv(basis) = (BᵀB)⁻¹Bᵀ for full column rank (contract, checked numerically on every '
-              'case through the normal equations); the basis matrix is the C11 mode model (compared on every case); float rounding only through the '
-              '1e-9 tolerance; generator coverage.')
-TECHNIQUE = 'Lean 4 proof over Mathlib matrices (nonsingular inverse) + differential correspondence of basis/fit/remove against the Lean mode model'
-GEN = []
-OPS = ['C11']
-RULE = ('cases: masks circular / hexagonal / segmented (hex_segments) / off-centre / irregular with weights, array sizes 9..22 even and odd; '
-        'non-empty mode subsets of Noll 1..21 of size 1..6 in random order (never exactly 1..k); both normalisations; default and '
-        'caller-supplied (shifted, rotated) coordinates; random coefficient vectors and random OPDs; cases whose basis is ill-conditioned '
-        '(cond > 1e6, the property\'s independence hypothesis) are counted but not judged; distinct = (mask kind, shape, modes, flags)')
-TRUSTED = ['np.linalg.pinv returns (BᵀB)⁻¹Bᵀ for a full-column-rank B (checked numerically via the normal equations, not proved)',
-           'np.einsum contractions as matrix-vector products']
-UNPROVEN = []
-ASSUMPTIONS = ['modes linearly independent on the mask (IsUnit det(BᵀB)); numerically: cond(B) <= 1e6',
-               'zernike_remove always uses normalize=True (it has no normalize parameter)']
+              'remove is idempotent; remove(compose c) = 0; the residual is orthogonal to the removed modes and no other coefficient vector '
+              'leaves a smaller sum of squares; permuting the requested modes permutes the coefficients. The executable model (basis from the '
+              'C11 mode model, Cramer solution of the normal equations, compose, remove) is proved equal to these abstract objects, a '
+              'coefficient vector for zernike_compose with the coefficients at the (regenerated) positions of the requested modes composes '
+              'B·c, and a concrete Zernike basis over Q satisfies the independence hypothesis. PARTIAL: that np.linalg.pinv(basis)·opd is the '
+              'normal-equation solution, and that the code builds exactly this basis, are checked by correspondence only.')
+LEVEL_NOTE = ('Trusted: Lean kernel and Mathlib; np.linalg.pinv(basis) = (BᵀB)⁻¹Bᵀ for full column rank and np.einsum contractions (compared on '
+              'every call with the Lean model run at Float, tolerance 1e-9 x conditioning); float rounding; generator coverage (histories of '
+              '6-9 calls, layouts, dtypes).')
+TECHNIQUE = 'Lean 4 proof over Mathlib matrices + executable Lean model of basis/fit/compose/remove with differential correspondence on call histories'
+GEN = ['ZernikeCalls']
+OPS = ['C11', 'C12']
+RULE = ('cases = call histories of 6-9 compose/fit/remove calls in one process on one mask (circular / hexagonal / segmented / off-centre / '
+        'irregular weighted, sizes 9..22 even and odd): same modes with default then caller-supplied (shifted, rotated) coordinates, both '
+        'normalisations, reversed/permuted mode orders, repeated calls; non-empty mode subsets of Noll 1..36 of size 1..6 in random order (never '
+        'exactly 1..k), given as list, ndarray or scalar; OPDs with and without content outside the mask; inputs C-ordered, Fortran-ordered, '
+        'transposed views, strided views, float32 OPDs, bool/int/float32 masks; histories whose basis is ill-conditioned (cond > 1e4) are '
+        'tagged and not judged; distinct = (mask kind, shape, step list) signature')
+TRUSTED = ['np.linalg.pinv returns (BᵀB)⁻¹Bᵀ for a full-column-rank B (compared numerically with the Lean normal-equation solution on every call, not proved)',
+           'np.einsum contractions as matrix-vector products; ndarray.ravel() / reshape(k, -1) enumerate samples in C order']
+UNPROVEN = ['zernike_fit returns the normal-equation (least-squares) solution: rests on the pinv contract — correspondence only',
+            'zernike_basis / zernike_compose evaluate the C11 mode model at the requested Noll indices and coordinates: the argument bindings and the '
+            'position -> Noll index map are regenerated from the source (Gen/ZernikeCalls), the values are compared on every call — no theorem about the Python code itself']
+ASSUMPTIONS = ['modes linearly independent on the mask (IsUnit det(BᵀB)); numerically: cond(B) <= 1e4, else the history is tagged unjudged',
+               'zernike_remove always uses the library-default normalisation (normalize=True; it has no normalize parameter)',
+               'requested modes are pairwise distinct']
 
 TOL = 1e-9
+LAYOUTS = ['C', 'F', 'T', 'S']
 
+# ------------------------------------------------------------------------------------------ generation
 def _mask(rng, kind, n):
     vlib.import_lentil()
     import lentil
@@ -47,8 +63,22 @@ def _mask(rng, kind, n):
         m *= rng.integers(1, 4, m.shape)           # weights: only the support may matter
     return np.asarray(m, dtype=float)
 
+def _lay(rng, p_plain=0.45):
+    return 'C' if rng.uniform() < p_plain else LAYOUTS[int(rng.integers(1, 4))]
+
+def _coords(rng):
+    return {'shift': [int(rng.integers(-6, 7)) / 4, int(rng.integers(-6, 7)) / 4], 'rotate': float(rng.integers(-90, 91))}
+
+def _cond(mask, modes, coords):
+    vlib.import_lentil()
+    import lentil, sys
+    Z = sys.modules['lentil.zernike']
+    kw = {}
+    if coords: kw['rho'], kw['theta'] = Z.zernike_coordinates(mask, shift=tuple(coords['shift']), rotate=coords['rotate'])
+    return max(float(np.linalg.cond(lentil.zernike_basis(mask, modes, vectorize=True, normalize=n, **kw).T)) for n in (True, False))
+
 def generate(rng, tier):
-    n = {'quick': 150, 'thorough': 3000, 'search': 600}[tier]
+    n = {'quick': 45, 'thorough': 700, 'search': 150}[tier]
     kinds = ['circle', 'hexagon', 'segmented', 'offcentre', 'irregular']
     out = []
     for k in range(n):
@@ -56,133 +86,216 @@ def generate(rng, tier):
         size = int(rng.integers(9, 23))
         m = _mask(rng, kind, size)
         nm = int(rng.integers(1, 7))
+        top = 37 if (k % 4 == 3 and size >= 14) else 22
         while True:
-            modes = [int(x) for x in rng.choice(np.arange(1, 22), size=nm, replace=False)]
+            modes = [int(x) for x in rng.choice(np.arange(1, top), size=nm, replace=False)]
             if modes != list(range(1, nm + 1)): break
-        c = {'kind': kind, 'shape': list(m.shape), 'mask': [float(x) for x in m.ravel()], 'modes': modes, 'normalize': bool(rng.integers(0, 2)),
-             'coeffs': [int(x) / 8 for x in rng.integers(-40, 41, nm)], 'opd': [int(x) / 16 for x in rng.integers(-64, 65, m.size)],
-             'coords': None}
-        if k % 3 == 2:
-            c['coords'] = {'shift': [int(rng.integers(-6, 7)) / 4, int(rng.integers(-6, 7)) / 4], 'rotate': float(rng.integers(-90, 91))}
-        out.append(c)
+        A, B, C = None, _coords(rng), _coords(rng)
+        nrm = bool(rng.integers(0, 2))
+        def opd(): return [int(x) / 16 for x in rng.integers(-64, 65, m.size)]
+        def coeffs(k_): return [int(x) / 8 for x in rng.integers(-40, 41, k_)]
+        def lay(): return {'opd': _lay(rng) if rng.integers(0, 5) else 'f32', 'mask': _lay(rng, 0.6), 'coords': _lay(rng, 0.6)}
+        rev = modes[::-1]
+        perm = [modes[i] for i in rng.permutation(nm)]
+        o1, o2 = opd(), opd()
+        steps = [
+            {'t': 'fit', 'modes': modes, 'normalize': nrm, 'coords': A, 'opd': o1, 'layout': lay()},
+            {'t': 'fit', 'modes': modes, 'normalize': nrm, 'coords': B, 'opd': o1, 'layout': lay()},        # same mask/modes, other coordinates
+            {'t': 'rm', 'modes': modes, 'coords': B, 'opd': o2, 'layout': lay()},
+            {'t': 'rm', 'modes': modes, 'coords': C if k % 2 else A, 'opd': o2, 'layout': lay()},
+            {'t': 'rt', 'modes': perm, 'normalize': not nrm, 'coords': C, 'coeffs': coeffs(nm), 'layout': lay()},
+            {'t': 'fit', 'modes': rev, 'normalize': not nrm, 'coords': A, 'opd': o2, 'layout': lay()},
+            {'t': 'span', 'modes': modes, 'coords': B if k % 3 else A, 'coeffs': coeffs(nm), 'layout': lay()},
+            {'t': 'rt', 'modes': modes, 'normalize': nrm, 'coords': A, 'coeffs': coeffs(nm), 'layout': lay()},
+            {'t': 'fit', 'modes': modes, 'normalize': nrm, 'coords': A, 'opd': o1, 'layout': lay()},        # repetition of the first call
+        ]
+        if rng.integers(0, 3) == 0: steps = [steps[i] for i in rng.permutation(len(steps))[:int(rng.integers(6, 10))]]
+        for s in steps:
+            s['modes_form'] = 'scalar' if len(s['modes']) == 1 and rng.integers(0, 2) else ('ndarray' if rng.integers(0, 3) == 0 else 'list')
+            s['mask_outside'] = bool(rng.integers(0, 2))      # OPD keeps its content outside the mask
+        cond = max(_cond(m, modes, c) for c in (A, B, C))
+        out.append({'kind': kind, 'shape': list(m.shape), 'mask': [float(x) for x in m.ravel()],
+                    'mask_dtype': ['float64', 'float64', 'bool', 'int', 'float32'][int(rng.integers(0, 5))], 'steps': steps, 'cond': cond})
     return out
 
-def signature(c): return f"{c['kind']} {c['shape']} {c['modes']} n={c['normalize']} coords={c['coords']} {vlib.jhash(c['mask'])}"
-def nontrivial(c): return True
+def signature(c):
+    return f"{c['kind']} {c['shape']} {vlib.jhash([c['mask'], [(s['t'], s['modes'], s.get('normalize'), s['coords'], s['layout']) for s in c['steps']]])}"
+def nontrivial(c): return len(c['steps']) > 1
 def tags(c):
-    return [c['kind'], f"modes:{len(c['modes'])}", 'normalized' if c['normalize'] else 'raw', 'coords:supplied' if c['coords'] else 'coords:default',
-            'modes:sorted' if c['modes'] == sorted(c['modes']) else 'modes:unsorted', 'with-piston' if 1 in c['modes'] else 'no-piston']
+    t = [c['kind'], 'judged' if c['cond'] <= 1e4 else 'unjudged(ill-conditioned)', 'mask:' + c['mask_dtype']]
+    for s in c['steps']:
+        t += ['step:' + s['t'], 'opd-layout:' + s['layout']['opd'], 'modes:' + s['modes_form'],
+              'coords:supplied' if s['coords'] else 'coords:default']
+        if s['coords'] and s['layout']['coords'] != 'C': t.append('coords-layout:' + s['layout']['coords'])
+        if s['layout']['mask'] != 'C': t.append('mask-layout:' + s['layout']['mask'])
+        if max(s['modes']) > 21: t.append('modes:noll>21')
+    return t
 
 # ------------------------------------------------------------------------------------------ implementation
-def _setup(c):
-    import sys
-    Z = sys.modules['lentil.zernike']
-    sh = tuple(c['shape'])
-    mask = np.array(c['mask']).reshape(sh)
-    if c['coords']:
-        rho, theta = Z.zernike_coordinates(mask, shift=tuple(c['coords']['shift']), rotate=c['coords']['rotate'])
-        kw = {'rho': rho, 'theta': theta}
-    else:
-        rho, theta = Z.zernike_coordinates(mask)
-        kw = {}
-    return Z, sh, mask, rho, theta, kw
+def _layout(a, how):
+    """same values, different memory layout / dtype"""
+    a = np.asarray(a)
+    if how == 'F': return np.asfortranarray(a)
+    if how == 'T': return np.ascontiguousarray(a.T).T
+    if how == 'S':
+        big = np.zeros((2 * a.shape[0], 2 * a.shape[1] + 1), dtype=a.dtype)
+        big[::2, 1::2] = a
+        return big[::2, 1::2]
+    if how == 'f32': return a.astype(np.float32)
+    return np.ascontiguousarray(a)
+
+def _modes(s):
+    if s['modes_form'] == 'scalar': return s['modes'][0]
+    if s['modes_form'] == 'ndarray': return np.array(s['modes'])
+    return list(s['modes'])
+
+def _fl(a): return [float(x) for x in np.asarray(a, dtype=float).ravel()]
 
 def impl(c):
     vlib.import_lentil()
-    import lentil
-    Z, sh, mask, rho, theta, kw = _setup(c)
-    modes, nrm = c['modes'], c['normalize']
+    import lentil, sys
+    Z = sys.modules['lentil.zernike']
+    sh = tuple(c['shape'])
+    mask64 = np.array(c['mask']).reshape(sh)
+    mask_t = {'float64': mask64, 'bool': mask64 != 0, 'int': (mask64 != 0).astype(int) * 3, 'float32': mask64.astype(np.float32)}[c['mask_dtype']]
+    outs = []
     try:
-        B = lentil.zernike_basis(mask, modes, vectorize=True, normalize=nrm, **kw)          # (k, P)
-        B1 = B if nrm else lentil.zernike_basis(mask, modes, vectorize=True, normalize=True, **kw)
-        cond = float(np.linalg.cond(B.T)); cond1 = float(np.linalg.cond(B1.T))
-        coeffs = np.array(c['coeffs'])
-        full = np.zeros(max(modes)); full[np.array(modes) - 1] = coeffs
-        opd_c = lentil.zernike_compose(mask, full, normalize=nrm, **kw)
-        fit_c = lentil.zernike_fit(opd_c, mask, modes, normalize=nrm, **kw)
-        opd = np.array(c['opd']).reshape(sh) * (mask != 0)
-        fit_r = lentil.zernike_fit(opd, mask, modes, normalize=nrm, **kw)
-        rem = lentil.zernike_remove(opd, mask, modes, **kw)
-        fit_rem = lentil.zernike_fit(rem, mask, modes, normalize=True, **kw)
-        rem2 = lentil.zernike_remove(rem, mask, modes, **kw)
-        full1 = np.zeros(max(modes)); full1[np.array(modes) - 1] = coeffs
-        opd_c1 = lentil.zernike_compose(mask, full1, normalize=True, **kw)
-        rem_span = lentil.zernike_remove(opd_c1, mask, modes, **kw)
-        # permuting the request permutes the answer
-        perm = list(reversed(range(len(modes))))
-        fit_p = lentil.zernike_fit(opd, mask, [modes[i] for i in perm], normalize=nrm, **kw)
-        return {'cond': cond, 'cond1': cond1, 'basis': [float(x) for x in B.ravel()], 'opd_c': [float(x) for x in np.ravel(opd_c)],
-                'fit_c': [float(x) for x in fit_c], 'fit_r': [float(x) for x in fit_r], 'rem': [float(x) for x in np.ravel(rem)],
-                'fit_rem': [float(x) for x in fit_rem], 'rem2_diff': float(np.abs(rem2 - rem).max()), 'rem_span': float(np.abs(rem_span).max()),
-                'fit_perm': [float(fit_p[perm.index(i)]) for i in range(len(modes))],
-                'rho': [float(x) for x in rho.ravel()], 'theta': [float(x) for x in theta.ravel()],
-                'opd_scale': float(np.abs(opd).max()), 'opdc_scale': float(max(1.0, np.abs(opd_c).max(), np.abs(opd_c1).max()))}
+        for s in c['steps']:
+            L = s['layout']
+            mask = _layout(mask_t, L['mask'])
+            if s['coords']:
+                rho, theta = Z.zernike_coordinates(mask64, shift=tuple(s['coords']['shift']), rotate=s['coords']['rotate'])
+                kw = {'rho': _layout(rho, L['coords']), 'theta': _layout(theta, L['coords'])}
+            else:
+                rho, theta = Z.zernike_coordinates(mask64)
+                kw = {}
+            modes = _modes(s); ml = s['modes']
+            o = {'rho': _fl(rho), 'theta': _fl(theta)}
+            if s['t'] in ('fit', 'rm'):
+                opd = np.array(s['opd']).reshape(sh)
+                if not s['mask_outside']: opd = opd * (mask64 != 0)
+                o['opd_in'] = _fl(opd)
+                opd = _layout(opd, L['opd'])
+            if s['t'] == 'fit':
+                o['fit'] = _fl(lentil.zernike_fit(opd, mask, modes, normalize=s['normalize'], **kw))
+                rv = ml[::-1]
+                fp = lentil.zernike_fit(opd, mask, rv if len(ml) > 1 else modes, normalize=s['normalize'], **kw)
+                o['fit_rev'] = _fl(fp)[::-1]
+            elif s['t'] == 'rm':
+                rem = lentil.zernike_remove(opd, mask, modes, **kw)
+                o['rem'] = _fl(rem); o['rem_shape'] = list(np.shape(rem))
+                o['fit_rem'] = _fl(lentil.zernike_fit(rem, mask, modes, normalize=True, **kw))
+                o['rem2_diff'] = float(np.abs(np.asarray(lentil.zernike_remove(rem, mask, modes, **kw)) - rem).max())
+            else:
+                nrm = True if s['t'] == 'span' else s['normalize']
+                full = np.zeros(max(ml)); full[np.array(ml) - 1] = np.array(s['coeffs'])
+                o['full'] = _fl(full)
+                oc = lentil.zernike_compose(mask, full, normalize=nrm, **kw)
+                o['opd_c'] = _fl(oc)
+                ocl = _layout(oc, L['opd'] if L['opd'] != 'f32' else 'F')
+                if s['t'] == 'rt': o['fit'] = _fl(lentil.zernike_fit(ocl, mask, modes, normalize=nrm, **kw))
+                else: o['rem'] = _fl(lentil.zernike_remove(ocl, mask, modes, **kw))
+            outs.append(o)
+        return {'steps': outs}
     except Exception as e:
-        return {'exc': type(e).__name__, 'msg': str(e)[:300]}
+        return {'exc': type(e).__name__, 'msg': str(e)[:300], 'at_step': len(outs)}
 
 def requests(c, io):
     if 'exc' in io: return []
     mk = [int(x != 0) for x in c['mask']]
     reqs = []
-    for nrm in ([c['normalize']] if c['normalize'] else [False, True]):
-        for j in c['modes']:
-            reqs.append({'op': 'zernike', 'j': j, 'normalize': nrm, 'rho': vlib.fl(io['rho']), 'theta': vlib.fl(io['theta']), 'mask': mk})
+    for s, o in zip(c['steps'], io['steps']):
+        base = {'rho': vlib.fl(o['rho']), 'theta': vlib.fl(o['theta']), 'mask': mk, 'modes': s['modes']}
+        if s['t'] == 'fit':
+            reqs.append(dict(base, op='zfit', normalize=s['normalize'], opd=vlib.fl(o['opd_in'])))
+        elif s['t'] == 'rm':
+            reqs.append(dict(base, op='zremove', opd=vlib.fl(o['opd_in'])))
+        else:
+            nrm = True if s['t'] == 'span' else s['normalize']
+            reqs.append(dict(base, op='zcompose', normalize=nrm, coeffs=vlib.fl(o['full'])))
+            if s['t'] == 'rt': reqs.append(dict(base, op='zfit', normalize=nrm, opd=vlib.fl(o['opd_c'])))
+            else: reqs.append(dict(base, op='zremove', opd=vlib.fl(o['opd_c'])))
     return reqs
 
-def _judged(io): return io['cond'] <= 1e6 and io['cond1'] <= 1e6
+def _judged(c): return c['cond'] <= 1e4
+
+def _ctol(c): return TOL * max(1.0, c['cond'] ** 2) * 10
+
+def _where(c, i, s):
+    return (f"call {i + 1}/{len(c['steps'])} ({s['t']}, modes {s['modes']} as {s['modes_form']}, "
+            f"coords {'supplied' if s['coords'] else 'default'}, layouts {s['layout']}, mask dtype {c['mask_dtype']})")
 
 def compare(c, io, mo):
     if 'exc' in io: return None          # judged by the oracle
-    k = len(c['modes'])
     for m in mo:
         if not m.get('ok'): return f"model refused: {m.get('err')}"
-    Bm = np.array([vlib.unfl(m['values']) for m in mo[:k]]).T                 # P x k, requested normalisation
-    B1 = Bm if c['normalize'] else np.array([vlib.unfl(m['values']) for m in mo[k:2 * k]]).T
-    Bi = np.array(io['basis']).reshape(k, -1).T
-    scale = max(1.0, np.abs(Bm).max())
-    if np.abs(Bi - Bm).max() > TOL * scale:
-        p, i = np.unravel_index(np.abs(Bi - Bm).argmax(), Bi.shape)
-        return f"zernike_basis column {i} (mode {c['modes'][i]}) sample {p}: impl {Bi[p, i]} model {Bm[p, i]}"
-    # compose = B c
-    oc = np.array(io['opd_c'])
-    if np.abs(oc - Bm @ np.array(c['coeffs'])).max() > TOL * scale * max(1.0, np.abs(c['coeffs']).max()) * k:
-        return 'zernike_compose is not B·c for the model basis of the requested modes'
-    if not _judged(io): return None
-    # fit solves the normal equations of the model basis (pinv contract)
-    opd = (np.array(c['opd']).reshape(c['shape']) * (np.array(c['mask']).reshape(c['shape']) != 0)).ravel()
-    G = Bm.T @ Bm; rhs = Bm.T @ opd; f = np.array(io['fit_r'])
-    if np.abs(G @ f - rhs).max() > TOL * (np.abs(G).max() * max(1.0, np.abs(f).max()) * k + np.abs(rhs).max()) * max(1.0, io['cond'] ** 2 * 1e-6):
-        return f'zernike_fit does not solve the normal equations BᵀB c = Bᵀ opd of the model basis (residual {np.abs(G @ f - rhs).max():.3e})'
-    # remove = opd − B₁ (B₁ᵀB₁)⁻¹ B₁ᵀ opd   (always normalised)
-    f1 = np.linalg.solve(B1.T @ B1, B1.T @ opd)
-    want = opd - B1 @ f1
-    if np.abs(np.array(io['rem']) - want).max() > TOL * max(1.0, io['opd_scale']) * max(1.0, io['cond1']) * 10:
-        return 'zernike_remove is not opd − B·(BᵀB)⁻¹Bᵀ·opd for the model basis'
+    k = 0
+    for i, (s, o) in enumerate(zip(c['steps'], io['steps'])):
+        if s['t'] == 'fit':
+            want = np.array(vlib.unfl(mo[k]['fit'])); k += 1
+            if _judged(c):
+                sc = max(1.0, np.abs(o['opd_in']).max())
+                if np.abs(np.array(o['fit']) - want).max() > _ctol(c) * sc:
+                    return f"{_where(c, i, s)}: zernike_fit {o['fit']} differs from the model's normal-equation solution {list(want)}"
+        elif s['t'] == 'rm':
+            want = np.array(vlib.unfl(mo[k]['residual'])); k += 1
+            if o['rem_shape'] != c['shape']: return f"{_where(c, i, s)}: zernike_remove returned shape {o['rem_shape']}"
+            if _judged(c):
+                sc = max(1.0, np.abs(o['opd_in']).max())
+                if np.abs(np.array(o['rem']) - want).max() > _ctol(c) * sc:
+                    return f"{_where(c, i, s)}: zernike_remove differs from the model's opd - B·fit(opd) (max {np.abs(np.array(o['rem']) - want).max():.3e})"
+        else:
+            wc = np.array(vlib.unfl(mo[k]['opd'])); k += 1
+            sc = max(1.0, np.abs(wc).max())
+            if np.abs(np.array(o['opd_c']) - wc).max() > TOL * sc * 10:
+                return f"{_where(c, i, s)}: zernike_compose differs from the model (coefficient i <-> Noll i+1) by {np.abs(np.array(o['opd_c']) - wc).max():.3e}"
+            if s['t'] == 'rt':
+                want = np.array(vlib.unfl(mo[k]['fit'])); k += 1
+                if _judged(c) and np.abs(np.array(o['fit']) - want).max() > _ctol(c) * sc:
+                    return f"{_where(c, i, s)}: zernike_fit of the composed OPD {o['fit']} differs from the model {list(want)}"
+            else:
+                want = np.array(vlib.unfl(mo[k]['residual'])); k += 1
+                if _judged(c) and np.abs(np.array(o['rem']) - want).max() > _ctol(c) * sc:
+                    return f"{_where(c, i, s)}: zernike_remove of the composed OPD differs from the model"
     return None
 
 # ------------------------------------------------------------------------------------------ oracle (real code only)
 def oracle(c, io):
-    if 'exc' in io: return f"{io['exc']}: {io.get('msg')}"
-    if not _judged(io): return None       # modes not (numerically) independent on this mask: outside the property's hypothesis
-    k = len(c['modes'])
-    amp = max(1.0, max(abs(x) for x in c['coeffs']))
-    tol = TOL * max(io['cond'], io['cond1'], 1.0) * 10
-    for i, (a, b) in enumerate(zip(io['fit_c'], c['coeffs'])):
-        if abs(a - b) > tol * amp * io['opdc_scale']:
-            return (f"fit(compose(c)) != c for modes {c['modes']} (normalize={c['normalize']}, coords={'supplied' if c['coords'] else 'default'}): "
-                    f"coefficient of mode {c['modes'][i]} is {a}, composed with {b}")
-    s = max(1.0, io['opd_scale'])
-    if max(abs(x) for x in io['fit_rem']) > tol * s: return f"fit(remove(opd)) = {io['fit_rem']} is not zero for modes {c['modes']}"
-    if io['rem2_diff'] > tol * s: return f"remove is not idempotent for modes {c['modes']}: max change {io['rem2_diff']:.3e}"
-    if io['rem_span'] > tol * amp * io['opdc_scale']:
-        return f"removing modes {c['modes']} from an OPD made only of them leaves {io['rem_span']:.3e}"
-    for a, b in zip(io['fit_perm'], io['fit_r']):
-        if abs(a - b) > tol * s: return f"fit depends on the order of the requested modes: {io['fit_perm']} vs {io['fit_r']}"
+    if 'exc' in io: return f"call {io.get('at_step', 0) + 1} raised {io['exc']}: {io.get('msg')}"
+    if not _judged(c): return None       # modes not (numerically) independent on this mask: outside the property's hypothesis
+    tol = TOL * max(c['cond'], 1.0) * 100
+    first = {}
+    for i, (s, o) in enumerate(zip(c['steps'], io['steps'])):
+        w = _where(c, i, s)
+        if s['t'] == 'rt':
+            sc = max(1.0, np.abs(o['opd_c']).max())
+            for m_, a, b in zip(s['modes'], o['fit'], s['coeffs']):
+                if abs(a - b) > tol * sc: return f'{w}: fit(compose(c)) != c — coefficient of mode {m_} is {a}, composed with {b}'
+        elif s['t'] == 'span':
+            sc = max(1.0, np.abs(o['opd_c']).max())
+            if np.abs(o['rem']).max() > tol * sc: return f"{w}: removing the modes from an OPD made only of them leaves {np.abs(o['rem']).max():.3e}"
+        elif s['t'] == 'rm':
+            sc = max(1.0, np.abs(o['opd_in']).max())
+            if np.abs(o['fit_rem']).max() > tol * sc: return f"{w}: fit(remove(opd)) = {o['fit_rem']} is not zero"
+            if o['rem2_diff'] > tol * sc: return f"{w}: remove is not idempotent (max change {o['rem2_diff']:.3e})"
+        else:
+            sc = max(1.0, np.abs(o['opd_in']).max())
+            for a, b in zip(o['fit'], o['fit_rev']):
+                if abs(a - b) > tol * sc: return f"{w}: fit depends on the order of the requested modes: {o['fit']} vs {o['fit_rev']} (reversed request)"
+            # the same call (same values of every argument) must give the same answer whenever and however it is made
+            key = vlib.jhash([s['modes'], s['normalize'], s['coords'], o['opd_in']])
+            if key in first:
+                j, prev = first[key]
+                if np.abs(np.array(prev) - np.array(o['fit'])).max() > tol * sc:
+                    return f'{w}: same arguments as call {j + 1} but the fit changed from {prev} to {o["fit"]} (history or memory-layout dependence)'
+            else: first[key] = (i, o['fit'])
     return None
 
 def shrink(c):
-    if len(c['modes']) > 1:
-        for i in range(len(c['modes'])):
-            d = dict(c); d['modes'] = c['modes'][:i] + c['modes'][i + 1:]; d['coeffs'] = c['coeffs'][:i] + c['coeffs'][i + 1:]
-            if d['modes'] != list(range(1, len(d['modes']) + 1)) or len(d['modes']) == 1: yield d
-    if c['coords']: d = dict(c); d['coords'] = None; yield d
+    if len(c['steps']) > 1:
+        for i in range(len(c['steps'])):
+            d = dict(c); d['steps'] = c['steps'][:i] + c['steps'][i + 1:]; yield d
+    for i, s in enumerate(c['steps']):
+        if any(v != 'C' for v in s['layout'].values()):
+            d = dict(c); d['steps'] = list(c['steps']); d['steps'][i] = dict(s, layout={'opd': 'C', 'mask': 'C', 'coords': 'C'}); yield d
+    if c['mask_dtype'] != 'float64': d = dict(c); d['mask_dtype'] = 'float64'; yield d
